@@ -308,7 +308,7 @@ def bfs(ctx, AR, names, max_depth):
                     rel, sh = rebuild(AR, seq, names)
                     nt = any(len(c) > 1 for c in sh.classes()) or op[0] == "add"
                     ctx.case({"fp": hash(fingerprint(rel, signed)), "op": op}, nt,
-                             {"history": [list(o) for o in seq], "operation": list(op)} if ctx.cases < 2 else None)
+                             {"history": [list(o) for o in seq], "operation": list(op)} if len(ctx.samples) < 2 else None)
                     ctx.cover("op:" + op[0])
                     fp = check_state_op(ctx, AR, seq, op, names, signed)
                 else:
